@@ -15,6 +15,8 @@
 #include <string.h>
 #include <stdbool.h>
 #include <unistd.h>
+#include <signal.h>
+#include <sys/prctl.h>
 #include <sys/mman.h>
 
 #ifdef __SANITIZE_ADDRESS__
@@ -52,6 +54,9 @@ static void vh_puthex(const void* p, size_t n) {
 }
 
 static int vh_next(vh_case_t* c) {
+    /* a harness must not outlive its supervisor (a killed check would leave hanging cases spinning) */
+    static int tied = 0;
+    if (!tied) { tied = 1; prctl(PR_SET_PDEATHSIG, SIGKILL); }
     ssize_t r = getline(&c->line, &c->linecap, stdin);
     if (r <= 0) return 0;
     while (r > 0 && (c->line[r-1] == '\n' || c->line[r-1] == '\r')) c->line[--r] = 0;
